@@ -63,7 +63,7 @@ func genTokSpec(r *Rand, nCast int, label string, rich bool) TokSpec {
 		}
 		if r.Chance(0.1) {
 			// far bounds: beyond 2262 (where UnixNano wraps), year 9999
-			d.Exp, d.Relative = ptr(Pick(r, []int64{9467020800, 10413792000, 253402300799}) - simEpochUnix), false
+			d.Exp, d.Relative = ptr(Pick(r, []int64{9467020800, 10413792000, 253402300799})-simEpochUnix), false
 			if r.Chance(0.5) {
 				d.Nbf = ptr(Pick(r, []int64{9467020700, 10413791000}) - simEpochUnix)
 			}
